@@ -455,3 +455,32 @@ PROPS["C14"] = dict(
     rule="cases: every function-map text of MC_Hermes (<= MaxSegs segments from 8 kinds incl. omitted trailing fields, name index driven out of range, unterminated and foreign-byte segments; ',' ';' ';;') embedded in a 2-source document with 22 tokens over a 4x5 grid of original positions, 36 bytecode offsets; seeded Hermes documents with 1..3 sources, null / empty / unparsable / multi-line function maps; distinct = distinct document; non-trivial = at least one token resolves to a function name",
     assumptions=COMMON_ASSUMPTIONS,
 )
+
+def _corrupt_c08(e):
+    o = e["out"]
+    if o["flat"]["k"] == "ok" and o["flat"]["p"]["toks"]:
+        o["flat"]["p"]["toks"][0][1] += 1
+        return True
+    for r in o["idx"]:
+        if r:
+            r[0]["sl"] += 1
+            return True
+    o["flat"]["k"] = "err" if o["flat"]["k"] == "ok" else "ok"
+    return True
+
+PROPS["C08"] = dict(
+    level="model_checking",
+    level_text="IndexMap.tla defines flattening (every section's tokens re-added through the interning builder model, moved down by the line offset and right by the column offset on the first line only, first-seen contents, ignore-list membership by source name, nested indexes recursively, unresolved section = error) and section lookup (greatest offset not after the position, position made section-relative). TLC checks the property's theorem on every small well-formed index x query: whenever the index lookup finds a token, the flattened map finds the same original location. Every enumerated index and seeded larger/nested ones are decoded by the real crate; flatten() and every lookup on the index and on the flattened map are judged by TLC.",
+    level_note="indexes whose sections overlap the next section's offset are outside the quantifier: for them only flatten is judged; tokens inside a section are strictly ordered in the judged maps",
+    technique="TLA+ flatten/lookup specification over the builder model with the agreement theorem model-checked by TLC, trace validation of real flatten()/lookup_token results",
+    mc=[
+        dict(module="MC_IndexMap", cfg="MC_IndexMap_quick.cfg", tiers=("quick",), workers=8),
+        dict(module="MC_IndexMap", cfg="MC_IndexMap_thorough.cfg", tiers=("thorough",), workers=14, timeout=3400, heap="24g"),
+    ],
+    trace="Trace_C08",
+    drive=dict(quick=dict(n=400, size=3), thorough=dict(n=8000, size=6)),
+    nontrivial=lambda e: e["out"].get("k") == "ok" and len(e["args"]["p"].get("sections", [])) >= 1,
+    corrupt=_corrupt_c08,
+    rule="cases: every well-formed index of MC_IndexMap (<= MaxSecs sections at offsets from {(0,0),(0,4),(1,2),(2,0)}, section maps: empty / one token / two lines with a name, shared source names, partial contents and an ignore list / sourceless + range token; unresolved sections; one nested index in thorough) x 40 grid queries; seeded: up to 12 sections (30 tokens each), mid-line starts, Hermes sections, nested indexes to depth 2, 40 random queries; distinct = distinct (index projection, queries); non-trivial = at least one section",
+    assumptions=COMMON_ASSUMPTIONS,
+)
